@@ -423,6 +423,10 @@ let check_kcprune ~id sf sg s0 s1 (log : Sexp.t list) (pts : Sexp.t list) : unit
           let ok4 = (try kcprune_cache ~id f h1 with Nonfinite -> true) (* x-c05k *) in
           if ok1 && ok2 && ok3 && ok4 then result id "OK" "kcprune" ""
         | _ -> result id "VIOL" "abs" "an arena is not a tree")
+     | "c05" ->
+       (* C05_kprune_witnesses / _marks: the caches of the pruned K = 4 composition, re-checked exactly *)
+       let ok = (try kcprune_cache ~id f h1 with Nonfinite -> true) in
+       if ok then result id "OK" "kcprune-cache" ""
      | _ -> result id "OK" "skipped" "")
 (* x-kprune end ------------------------------------------------------------------------------------------------ *)
 
